@@ -110,7 +110,7 @@ pub fn judge_plain(input: &[u8], acc: &mut Acc) {
 static OWNED_EVERYWHERE: std::sync::atomic::AtomicBool = std::sync::atomic::AtomicBool::new(false);
 
 pub fn run(run: &Run) {
-    OWNED_EVERYWHERE.store(run.tier == Tier::Thorough, std::sync::atomic::Ordering::Relaxed);
+    OWNED_EVERYWHERE.store(true, std::sync::atomic::Ordering::Relaxed);
     run.explore(&u2::CtlUniverse);
     run.explore(&u2::LenUniverse { presents: u2::Presents::AcceptedStride(1), name: "U2-len/accepted" });
     run.explore(&u2::sig_universe());
